@@ -249,11 +249,54 @@ class Interp:
         self.exact_le = False    # True: a <= b is kept exact (not identified with a < b); used when ties are in the quantifier
 
     # ------------------------------------------------------------------ calls
+    def validator_guards(self, fi, args, kwargs, node=None):
+        """A validator (a function whose job is to raise on bad values and hand the good ones on) that a set-up treats as the identity is still run for the
+        refusals it makes *on the data*: see data_guards"""
+        val = args[1] if len(args) > 1 else kwargs.get('value')
+        self.data_guards(fi, args, kwargs, None, val, node)
+
+    def data_guards(self, fi, args, kwargs, selfv, val, node=None):
+        """Run fi (a validator, or a property setter that validates) only for the refusals it makes on the values of ``val``: raise-guards whose test reads
+        those values are kept in ``assumed`` (tagged with the function); everything else the run does is dropped (type / unit-kind / shape tests on
+        symbolic stand-ins are not modelled and decide nothing).  The package's validate_* helpers are interpreted during the run."""
+        if not isinstance(val, Arr) or getattr(self, '_guard_mode', False):
+            return
+        data_syms = alg.leaf_syms(val.poly)[0]
+        if not data_syms:
+            return
+        keep = ('findings', 'assumed', 'trace', 'positional', 'unit_checks', 'lost', 'flow_taint', 'forked', 'conds', 'xr_log')
+        saved = {k: list(getattr(self, k)) for k in keep}
+        scal = {k: getattr(self, k, None) for k in ('_unknown_conds', 'uncaught', 'depth')}
+        stack, frames = list(self.stack), list(self.frames)
+        self._guard_mode = True
+        new = []
+        try:
+            self.call(fi, list(args), dict(kwargs), selfv=(Obj(selfv.cls, dict(selfv.attrs)) if isinstance(selfv, Obj) else selfv), node=node)
+        except BaseException as ex:
+            if isinstance(ex, (KeyboardInterrupt, SystemExit)):
+                raise
+        finally:
+            new = self.assumed[len(saved['assumed']):]
+            self._guard_mode = False
+            for k, v in saved.items():
+                setattr(self, k, v)
+            for k, v in scal.items():
+                if v is None and k != 'uncaught':
+                    self.__dict__.pop(k, None)
+                else:
+                    setattr(self, k, v)
+            self.stack[:] = stack
+            self.frames[:] = frames
+        for g in new:
+            tv = g[5] if len(g) > 5 else None
+            if g[4] == 'raise-guard' and isinstance(tv, Arr) and tv.mask is None and {str(x_).split('@')[0] for x_ in alg.leaf_syms(tv.poly)[0]} & data_syms:
+                self.assumed.append((g[0], g[1], g[2], g[3], 'raise-guard', tv, 'validator:' + fi.name))
+
     def call(self, fi, args, kwargs=None, selfv=None, node=None, closure=None):
         kwargs = dict(kwargs or {})
         if selfv is not None:
             args = [selfv] + list(args)
-        h = self.hooks.opaque(self, fi, args, kwargs, node)
+        h = NotImplemented if (getattr(self, '_guard_mode', False) and fi.cls is None and fi.name.startswith('validate_')) else self.hooks.opaque(self, fi, args, kwargs, node)
         if h is not NotImplemented:
             return h
         if self.depth > 8:
@@ -955,7 +998,7 @@ class Interp:
         if o.cls is not None:
             setter = self.repo.find_setter(o.cls, name)
             if setter is not None:
-                r = self.hooks.setter(self, o, name, val, setter, node)
+                r = NotImplemented if getattr(self, '_guard_mode', False) else self.hooks.setter(self, o, name, val, setter, node)
                 if r is not NotImplemented:
                     return
                 self.call(setter, [val], selfv=o, node=node)
@@ -1806,6 +1849,11 @@ class Interp:
                     r = a in b
                 except TypeError as ex_:
                     raise PyRaise('TypeError', str(ex_))
+                return r if opn is ast.In else not r
+            if isinstance(a, (Marker, ClassRef)) and isinstance(b, (list, tuple)) and all(isinstance(x_, (Marker, ClassRef)) for x_ in b):
+                # type(x) in [list, tuple]: names of types compared by identity
+                key_ = lambda v_: ('m', v_.name) if isinstance(v_, Marker) else ('c', id(v_.ci))
+                r = key_(a) in [key_(x_) for x_ in b]
                 return r if opn is ast.In else not r
             return Unk('membership test', e)
         if isinstance(a, Unk):
@@ -2939,6 +2987,20 @@ class Interp:
                 if isinstance(x, Arr) and x.ndim == 0 and x.mask is None:
                     return Arr((), alg.b_not(alg.mk_ind('==0', x.poly)))
                 return Unk('bool(%r)' % (x,), e)
+            if last == 'type' and len(args) == 1:
+                x = args[0]
+                for t_ in (bool, int, float, str, list, tuple, dict):
+                    if type(x) is t_:
+                        return Marker('builtins.' + t_.__name__)
+                if x is None:
+                    return Marker('builtins.NoneType')
+                if isinstance(x, Fraction):
+                    return Marker('builtins.float')
+                if isinstance(x, Arr):
+                    return Marker('astropy.units.Quantity' if (x.unit is not None and not (x.unit == num(1))) else 'numpy.ndarray')
+                if isinstance(x, Obj) and x.cls is not None:
+                    return ClassRef(x.cls)
+                return Unk('type()', e)
             if last == 'type':
                 return Unk('type()', e)
             if last in ('print',):
@@ -3537,6 +3599,7 @@ class Hooks:
         priv = setter_private_attr(setter_fi)
         if priv is None:
             return NotImplemented
+        interp.data_guards(setter_fi, [val], {}, obj, val, node)          # what the setter / its validator refuses on the values themselves
         obj.attrs[priv] = val
         return None
 
